@@ -1,6 +1,9 @@
 package props
 
 import (
+	"go/ast"
+	"go/token"
+	"go/types"
 	"os"
 	"strings"
 
@@ -272,6 +275,55 @@ func debugExpr(r *core.Run) {
 					fmt.Printf("   IF %s -> b%d / b%d\n", an.Expr(x.Cond), b.Succs[0].Index, b.Succs[1].Index)
 				}
 			}
+		}
+	}
+}
+
+func init() { Registry["X-shadow"] = debugShadow }
+
+// X-shadow (cross-reference, not a check): short variable declarations in an inner scope that shadow a
+// variable of the same type declared in an enclosing function scope which is read after the inner scope.
+func debugShadow(r *core.Run) {
+	p := load(r, core.LoadOpts{})
+	for _, pk := range p.Pkgs {
+		info := pk.TypesInfo
+		for _, file := range pk.Syntax {
+			ast.Inspect(file, func(n ast.Node) bool {
+				as, ok := n.(*ast.AssignStmt)
+				if !ok || as.Tok != token.DEFINE {
+					return true
+				}
+				for _, lhs := range as.Lhs {
+					id, ok := lhs.(*ast.Ident)
+					if !ok || id.Name == "_" {
+						continue
+					}
+					obj := info.Defs[id]
+					if obj == nil {
+						continue
+					}
+					sc := obj.Parent()
+					if sc == nil || sc.Parent() == nil {
+						continue
+					}
+					_, outer := sc.Parent().LookupParent(id.Name, id.Pos())
+					ov, ok := outer.(*types.Var)
+					if !ok || ov.Pkg() != obj.Pkg() || ov.Parent() == pk.Types.Scope() || !types.Identical(ov.Type(), obj.Type()) {
+						continue
+					}
+					// is the outer variable used after the inner scope ends?
+					used := false
+					for uid, uo := range info.Uses {
+						if uo == outer && uid.Pos() > sc.End() {
+							used = true
+						}
+					}
+					if used && id.Name != "err" && id.Name != "e" && id.Name != "er" && id.Name != "ok" {
+						fmt.Printf("%s: %s shadows %s\n", p.Pos(id.Pos()), id.Name, p.Pos(ov.Pos()))
+					}
+				}
+				return true
+			})
 		}
 	}
 }
